@@ -15,6 +15,7 @@ def jobs(tier):
     quick = tier == 'quick'
     lens = [None, 0, 1, 2, 3, 4] if quick else [None] + list(range(0, 8))
     scen = [['text'], ['write'], ['include f'], ['run'], ['text', 'text'], ['temp', 'cont prefix'], ['temp'], ['tag A', 'write', 'tagtext'],
+            ['include f', 'empty'], ['run', 'empty'], ['empty'], ['text', 'temp'],
             ['tag A']]
     for sc in scen:
         for pl in lens:
